@@ -62,7 +62,9 @@ CLAIMED.update({
    text="Theorems (Props/C14.lean), for every dimension and every outcome of the generator's random choices: dirs_det (det = sign(perm) * prod(+-nmax), via Mathlib's determinant of permuted lower-triangular matrices), "
         "dirs_nonsingular, dirs_positive_spanning (every rational vector is a non-negative combination of the 2n directions), dirs_entries_bounded, dirs_default_are_signed_unit_vectors, pollLoop_nodup_sub "
         "(polled points pairwise distinct, at most the candidate count), basis_length = 2n, poll_points_form. Correspondence: poll_mads_2n under a scripted random source (exhaustive for the small scopes listed in the evidence, "
-        "sampled up to D=6, mesh ratios 1,2,4) vs Poll.basis; Lean predicates on the implementation's basis; every poll step of traced runs (points = incumbent + mesh*direction, each direction once, <= 2D).",
+        "sampled up to D=6, mesh ratios 1,2,4) vs Poll.basis; Lean predicates on the implementation's basis; every poll step of traced runs (points = incumbent + mesh*direction, each direction once, <= 2D). "
+        "Inside the composed whole-run model (Props/C14Run.lean): when the poll set handed to an iteration is the generator's, every point the iteration evaluates is incumbent + mesh_size * (a row of the basis), none twice, at most 2D, "
+        "whatever the filter drops, the acquisition order and the budget do (poll_step_form, poll_step_nodup, poll_step_at_most_2D; run_polls_form for every iteration a run reaches).",
    design="5 / C14", technique="Lean 4 (Mathlib determinant) proof for all dimensions/draws + scripted-RNG differential"),
  "C04": dict(
    text="Theorems (Props/C04.lean) about Inc.step for every sequence of evaluated points and returned values (any target incl. plateaus/ties, any candidate generation): inc_init, inc_search, inc_poll, inc_reachable "
@@ -107,13 +109,17 @@ CLAIMED.update({
  "C15": dict(
    text="Theorems (Props/C15.lean) for every log state, distance vector and size option: neighbors_sub_log (every training triple is a log row; noise enters as the logged SD squared), ranked_sorted, neighbors_nearest, ranked_perm, "
         "ntrain_bounds, neighbors_length, fevals_variance, addPoint_is_last, lcb_def, lcb_antitone_in_sd, lcb_monotone_in_mean. Correspondence: every training-set selection (incl. history re-evaluation), posterior update and "
-        "acquisition call of the traced runs vs GP.neighbors on the same log snapshot and distances; clauses evaluated on the implementation's arrays; beta_t recomputed from the documented schedule.",
+        "acquisition call of the traced runs vs GP.neighbors on the same log snapshot and distances; clauses evaluated on the implementation's arrays; beta_t recomputed from the documented schedule. "
+        "Over whole runs (Props/C15Run.lean): the surrogate's training set as a state machine under initial training / local refits with retries / posterior updates (srun_train, select_keeps_selected_set, srun_real, "
+        "srun_attempts_agree), and the logger model of C12 composed with it (train_at_evaluated_points in every noise mode; train_sub_log_partial and train_sub_log_unspecified_noise: every training triple is a log record as long as "
+        "nothing is merged; merged_add_counterexample = known finding C15-merged-add as a theorem about the model; reselect_restores). Correspondence: gp.run and sur.jrun replay the event sequence of every pool run, "
+        "training set / log size / func_count compared after every event, all fit-attempt sizes in order.",
    design="5 / C15", technique="Lean 4 theorems over the training-set selection model + per-event differential on traced runs"),
  "C16": dict(
    text="Theorems (Props/C16.lean): robustFit_shapes_agree (X, y and the noise vector have the same length at every retry), robustFit_defined (k consecutive failures then a success, fewer than 10 attempts: returns after k+1 attempts), "
         "initFit_terminates, updateFallback_restores, guarantees_survive_faults (C01/C03/C04 theorems hold verbatim: GP results are universally quantified oracle inputs there). Correspondence: LinAlgError injected into GP.fit at "
         "schedules of invocation indices (single, 2-4 consecutive, scattered; every index in the thorough tier), deterministic and noisy modes; the run must complete, attempt shapes vs the model, and the C01/C03/C04 run-level checks are "
-        "re-run on every faulted run.",
+        "re-run on every faulted run. Failures are injected at the start of a fit and (fault_where = late) in the final posterior computation of a fit; constant objectives, slice-sampler restarts, large declared noise.",
    design="5 / C16", technique="Lean 4 theorems over the retry model + fault-schedule enumeration on real runs"),
  "C18": dict(
    text="Theorems (Props/C18.lean): es_returns_argmin (the proposed point is a surviving candidate of some generation with minimal acquisition value, for every population size), es_empty, mask_monotone, mask_le_index "
